@@ -8,6 +8,7 @@ import (
 	"io"
 	"math/rand"
 	"net"
+	"sync"
 	"testing"
 	"time"
 
@@ -457,6 +458,94 @@ func runC10BindHostile(rng *rand.Rand, rec *sim.Rec, alloc *client.TCPAllocation
 	rec.SetSample(map[string]any{"announced": l, "available": avail, "err": fmt.Sprint(err)})
 }
 
+// gatedConn delivers its first chunk at once and holds every later read until its partner has
+// had its first chunk too: two ConnectionBind replies arrive interleaved, piece by piece.
+type gatedConn struct {
+	*scriptConn
+	first bool
+	gate  *sync.WaitGroup
+}
+
+func (g *gatedConn) Read(b []byte) (int, error) {
+	if !g.first {
+		g.first = true
+		n, err := g.scriptConn.Read(b)
+		g.gate.Done()
+
+		return n, err
+	}
+	g.gate.Wait()
+
+	return g.scriptConn.Read(b)
+}
+
+// runC10BindConcurrent: two data connections of one allocation are bound at the same time (a Dial
+// and an Accept, say) and both replies arrive split inside the 20-byte header. Each call parses
+// its own reply and leaves its own application bytes alone.
+func runC10BindConcurrent(rng *rand.Rand, rec *sim.Rec, alloc *client.TCPAllocation) {
+	mk := func(success bool, app []byte) []byte {
+		tid := [12]byte{}
+		rng.Read(tid[:])
+		var reply []byte
+		if success {
+			b := wire.NewBuilder(wire.MethodConnectionBind, wire.ClassSuccess, tid)
+			b.Add(wire.AttrSoftware, []byte("verif-scripted-server-with-a-longer-name"))
+			reply = b.Bytes()
+		} else {
+			b := wire.NewBuilder(wire.MethodConnectionBind, wire.ClassError, tid)
+			b.Add(wire.AttrErrorCode, append([]byte{0, 0, 4, 0}, []byte("Bad Request")...))
+			reply = b.Bytes()
+		}
+
+		return append(reply, app...)
+	}
+	okA, okB := rng.Intn(2) == 0, rng.Intn(2) == 0
+	appA, appB := []byte("application bytes of connection A"), []byte("B's application data, longer than A's, follows its reply")
+	sA, sB := mk(okA, appA), mk(okB, appB)
+	var gate sync.WaitGroup
+	gate.Add(2)
+	cutA, cutB := 1+rng.Intn(19), 1+rng.Intn(19)
+	ca := &gatedConn{scriptConn: &scriptConn{chunks: cutStream(sA, []int{cutA})}, gate: &gate}
+	cb := &gatedConn{scriptConn: &scriptConn{chunks: cutStream(sB, []int{cutB})}, gate: &gate}
+	type res struct {
+		err  error
+		rest []byte
+	}
+	run := func(g *gatedConn, out chan<- res) {
+		dc := &client.TCPConn{TCPConn: g}
+		var err error
+		func() {
+			defer func() {
+				if r := recover(); r != nil {
+					err = fmt.Errorf("panic: %v", r)
+					rec.Violate("framer-panic", "BindConnection/concurrent", "BindConnection panicked: %v", r)
+				}
+			}()
+			err = alloc.BindConnection(dc, 7)
+		}()
+		rest, _ := io.ReadAll(g.scriptConn)
+		out <- res{err, rest}
+	}
+	outA, outB := make(chan res, 1), make(chan res, 1)
+	go run(ca, outA)
+	go run(cb, outB)
+	ra, rb := <-outA, <-outB
+	for _, x := range []struct {
+		name string
+		ok   bool
+		r    res
+		app  []byte
+	}{{"A", okA, ra, appA}, {"B", okB, rb, appB}} {
+		if x.ok != (x.r.err == nil) {
+			rec.Violate("bind-seg-dependent", "concurrent", "two concurrent BindConnection calls with split reply headers: connection %s got err=%v for a %s reply", x.name, x.r.err, map[bool]string{true: "success", false: "error"}[x.ok])
+		} else if !bytes.Equal(x.r.rest, x.app) {
+			rec.Violate("bind-consumed-app-bytes", "concurrent", "two concurrent BindConnection calls: %d application bytes remain on connection %s, %d followed its reply", len(x.r.rest), x.name, len(x.app))
+		}
+	}
+	rec.Ev("bind-concurrent-pairs")
+	rec.FP("bind-concurrent/%v/%v", okA, okB)
+}
+
 func runC10Bind(t *testing.T, rng *rand.Rand, rec *sim.Rec, tier string, caseNo int) {
 	alloc := client.NewTCPAllocation(&client.AllocationConfig{
 		Client: stubClient{}, RelayedAddr: &net.TCPAddr{IP: net.IPv4(10, 0, 0, 2), Port: 4000},
@@ -465,6 +554,13 @@ func runC10Bind(t *testing.T, rng *rand.Rand, rec *sim.Rec, tier string, caseNo 
 		Integrity: stun.NewLongTermIntegrity("u", "r", "p"), Log: logging.NewDefaultLoggerFactory().NewLogger("x"),
 	})
 	defer alloc.Close() //nolint:errcheck
+	if caseNo%4 == 2 {
+		for k := 0; k < 20; k++ {
+			runC10BindConcurrent(rng, rec, alloc)
+		}
+
+		return
+	}
 	if caseNo%4 == 3 {
 		for k := 0; k < 15; k++ {
 			runC10BindHostile(rng, rec, alloc, caseNo/4+k)
